@@ -95,4 +95,69 @@ def acceptAll : St → List Ev → Option St
 /-- the injector of `n` has completed its publish-then-signal sequence -/
 def pulled (p : IPc) : Bool := p == .wrote || p == .finished
 
+/-! ## the daemon's own steps (bounded-steps liveness, `C16_bounded`)
+
+  `accept` is an acceptor: it also accepts a `dClose` that the 25-minute timer would cause.  The functions
+  below single out the steps the daemon takes *on its own*: `trigger_set()`'s close happens only when select
+  reported the FIFO readable (`idle` with `buf`), or once at start-up, where `todo_init()` has just opened
+  the FIFO and the first `todo_do()` re-arms it before its first scan (`boot`). -/
+
+def dAllowed (boot : Bool) (s : St) : Ev → Bool
+  | .dClose => match s.d with
+    | .idle => s.buf
+    | .reopened => boot
+    | _ => false
+  | .dOpen => true
+  | .dOpendir => true
+  | .dSeeNew _ => true
+  | .dRead _ => true
+  | .dEnd => true
+  | _ => false                      -- injector events are not the daemon's
+
+/-- the start-up re-arm happens at most once -/
+def bootAfter (boot : Bool) : Ev → Bool
+  | .dClose => false
+  | _ => boot
+
+/-- a run of the daemon alone: no injector step, no timer -/
+def drun : Bool → St → List Ev → Option St
+  | _, s, [] => some s
+  | boot, s, e :: es =>
+    if dAllowed boot s e then
+      match accept s e with
+      | some s' => drun (bootAfter boot e) s' es
+      | none => none
+    else none
+
+/-- the decreasing measure: an upper bound on the number of daemon steps before entry `n` is processed.
+In a scan: one step per entry still to be read (`|todo|`), one per entry the stream has not reported yet
+(`dSeeNew`), and — if `n` is not in the stream — closedir, the re-arm (close, open) and opendir of the next scan,
+whose reads are already paid for by `|todo|`. -/
+def phi (boot : Bool) (s : St) (n : Nat) : Nat :=
+  match s.d with
+  | .idle => 2 * s.todo.length + 2
+  | .closed => 2 * s.todo.length + (if boot then 3 else 1)
+  | .reopened => 2 * s.todo.length + (if boot then 2 else 0)
+  | .scanning rem => s.todo.length + (s.todo.filter (fun x => !rem.contains x)).length + (if rem.contains n then 0 else 3)
+
+/-- the step the code takes next (readdir order: head of the stream) -/
+def dnext (s : St) : Option Ev :=
+  match s.d with
+  | .idle => if s.buf then some .dClose else none        -- otherwise it sleeps in select
+  | .closed => some .dOpen
+  | .reopened => some .dOpendir
+  | .scanning [] => some .dEnd
+  | .scanning (x :: _) => some (.dRead x)
+
+/-- `k` steps of the daemon running alone -/
+def dauto : Nat → St → St
+  | 0, s => s
+  | k + 1, s =>
+    match dnext s with
+    | none => s
+    | some e =>
+      match accept s e with
+      | some s' => dauto k s'
+      | none => s
+
 end Nq.Trigger
